@@ -10,7 +10,7 @@ reference assembly  b = sum J^T W e,  H = sum J^T W J  with fixed rows/columns r
 import ast
 
 from .poly import Poly
-from .interp import Arr, Obj, sym_pose, sym_vec, sym_mat, PathRaise
+from .interp import ga, sa, Arr, Obj, sym_pose, sym_vec, sym_mat, PathRaise
 from .algebra import ObFail, run_obligation, CDIM
 from .model import AnalysisError
 
@@ -129,7 +129,8 @@ def _build(it, scn):
         err = sym_vec("e%d" % ei, m)
         W = sym_symmetric("W%d" % ei, m)
         Js = [sym_mat("J%d_%d" % (ei, k), m, dims[v]) for k, v in enumerate(vs)]
-        e = Obj("BaseEdge", information=W, estimate=None, vertex_ids=[vid(v) for v in vs], vertices=None)
+        from .algebra import custom_edge
+        e = custom_edge(it, [vid(v) for v in vs], W, None, None)
         e.stubs["calc_error"] = (lambda err=err: err)
         e.stubs["calc_jacobians"] = (lambda Js=Js: list(Js))
         e.stubs["is_valid"] = lambda: True
@@ -144,10 +145,10 @@ def _assemble_and_compare(it, g, verts, dims, spec, scn, label="", chi2_only=Fal
     run_prelude(it, g, scn.ffp)
     fixed = set(scn.fixed) | ({0} if scn.ffp else set())
     for k, v in enumerate(verts):
-        if bool(v.fields.get("fixed")) != (k in fixed):
-            raise ObFail("%safter the fix_first_pose prelude vertex %d has fixed=%r, expected %r" % (label, k, v.fields.get("fixed"), k in fixed))
+        if bool(ga(v, "fixed", None)) != (k in fixed):
+            raise ObFail("%safter the fix_first_pose prelude vertex %d has fixed=%r, expected %r" % (label, k, ga(v, "fixed", None), k in fixed))
     it.call_method(g, "_calc_chi2_gradient_hessian", [])
-    b, H, chi2 = g.fields.get("_gradient"), g.fields.get("_hessian"), g.fields.get("_chi2")
+    b, H, chi2 = ga(g, "_gradient", None), ga(g, "_hessian", None), ga(g, "_chi2", None)
     offs = [sum(dims[:k]) for k in range(len(dims))]
     n = sum(dims)
     # ---- the checker's reference assembly
@@ -224,7 +225,7 @@ def sequence_obligation(first, second):
         g, verts, dims, spec = _build(it, first)
         _assemble_and_compare(it, g, verts, dims, spec, first, label="first call: ")
         for k, v in enumerate(verts):
-            v.fields["fixed"] = k in second.fixed      # the user changes the fixed flags between two calls
+            sa(v, "fixed", k in second.fixed)      # the user changes the fixed flags between two calls
         st = _assemble_and_compare(it, g, verts, dims, spec, second,
                                    label="second call on the same graph (fixed set changed from %s to %s): " % (sorted(first.fixed | ({0} if first.ffp else set())), sorted(second.fixed)))
         st["scenario"] = "%s -> %s" % (first.name, second.name)
@@ -244,8 +245,8 @@ def update_sweep_obligation(scn, sweep_stmts, dx_names):
         dx = sym_vec("dx", n)
         for name in dx_names:
             env[name] = dx
-        old = [Pose(v.fields["pose"].cls, list(v.fields["pose"].data)) for v in verts]
-        old_objs = [v.fields["pose"] for v in verts]
+        old = [Pose(ga(v, "pose").cls, list(ga(v, "pose").data)) for v in verts]
+        old_objs = [ga(v, "pose") for v in verts]
         it.fn_stack.append(ofn)
         try:
             for st in sweep_stmts:
@@ -255,7 +256,7 @@ def update_sweep_obligation(scn, sweep_stmts, dx_names):
         fixed = set(scn.fixed) | ({0} if scn.ffp else set())
         offs = [sum(dims[:k]) for k in range(len(dims))]
         for k, v in enumerate(verts):
-            now = v.fields.get("pose")
+            now = ga(v, "pose", None)
             if not isinstance(now, Pose) or now.cls != old[k].cls:
                 raise ObFail("after the update vertex %d holds %r instead of a %s" % (k, now, old[k].cls))
             if k in fixed:
